@@ -1,105 +1,140 @@
 --------------------------- MODULE MathAggTrace ---------------------------
 (***************************************************************************)
 (* Trace validation for rxsci.math.  A batch of recorded executions of the *)
-(* real operators is read from IOEnv.TRACE_FILE; one record is one         *)
-(* subscription of one operator:                                           *)
-(*   [op, mode (plain|mux|store), num (exact|float), reduce (0|1),         *)
-(*    unit, items, outs, final, ended, km, sib]                            *)
+(* real operators is read from IOEnv.TRACE_FILE.  One record is one item   *)
+(* sequence sent to a streaming (reduce=False) and a reduce (reduce=True)  *)
+(* subscription of every operator in `ops`, side by side as in MathAgg:    *)
+(*   [mode (plain|mux|store), num (exact|float), unit, kmul, kadd, items,  *)
+(*    ops,                                                                 *)
+(*    s: [op -> [outs, final, ended, km]],  r: [op -> [outs, final, ...]]] *)
 (* items: integers a, the item sent is a / unit; outs[j]: the values       *)
 (* emitted while item j was delivered, final: at completion.  A value is   *)
 (* <<num, den>> (the harness converts the real output exactly with         *)
 (* Fraction), <<>> for None, <<num, den, 2>> for a stddev whose square is  *)
 (* num/den, <<0, 0, 9>> for anything that is not such a number.  km[j]:    *)
-(* key_mapper calls during item j.  sib (reduce records): the last value   *)
-(* the streaming subscription of the same operator emitted on the same     *)
-(* items.                                                                  *)
+(* key_mapper calls during item j.                                         *)
 (*                                                                         *)
-(* Every record is replayed through Item / Complete of MathAgg with        *)
-(* inst = {op}.  Verdict (C12), by the part-2 definitions of MathAgg only: *)
+(* The record is replayed through Item / Complete of MathAgg with          *)
+(* inst = ops.  One verdict per subscription (C12), by the part-2          *)
+(* definitions of MathAgg only:                                            *)
 (*   count   a streaming instance does not emit exactly one value per item *)
 (*           (and none at completion), a reduce instance does not emit     *)
 (*           exactly one value, at completion                              *)
 (*   value   an emitted value is not the statistic of the items so far     *)
 (*   empty   the value a reduce instance emits on no items is wrong        *)
-(*   streaming-vs-reduce  the reduce value differs from the last streaming *)
-(*           value                                                         *)
+(*   streaming-vs-reduce  the reduce value is the specified one but not    *)
+(*           the last value of the streaming instance                      *)
 (*   error   the subscription did not complete normally                    *)
-(* Whether the emissions also equal those of the implementation-shaped     *)
-(* part (with the configured FormalClears) and key_mapper ran once per     *)
-(* item is reported as insync, not as a verdict.                           *)
+(* A status is <<step, clause, insync>>, step = 0 / clause = "" when the   *)
+(* subscription is accepted.  insync: the emissions also equal those of    *)
+(* the implementation-shaped part (with the configured FormalClears) and   *)
+(* key_mapper ran once per item -- reported, not a verdict.                *)
 (***************************************************************************)
 EXTENDS MathAgg, Json, IOUtils
 
 Traces == JsonDeserialize(IOEnv.TRACE_FILE)
 
-VARIABLES tid, l, ph, badStep, badClause, insync
+VARIABLES tid, l, ph, stS, stR
 
-tvars == <<vars, tid, l, ph, badStep, badClause, insync>>
+tvars == <<vars, tid, l, ph, stS, stR>>
 
 T == Traces[tid]
 
+OpSeq == <<"sum", "mean", "min", "max", "variance", "stddev", "formal.variance", "formal.stddev">>
+
+Accepted == <<0, "", TRUE>>
+Frozen(s) == s[2] = "count" \/ s[2] = "error"
+FirstStatus(ended) == IF ended # "completed" THEN <<0, "error", FALSE>> ELSE Accepted
+Bad(s, step, clause) == IF s[1] = 0 THEN <<step, clause, FALSE>> ELSE <<s[1], s[2], FALSE>>
+    \* (used for `count`: the emissions can no longer be aligned with the model)
+
 TraceInit ==
     /\ tid \in 1..Len(Traces)
-    /\ l = 0 /\ ph = "run" /\ badStep = 0 /\ badClause = "" /\ insync = TRUE
+    /\ l = 0 /\ ph = "run"
     /\ bag = EmptyBag /\ nrecv = 0 /\ hist = <<>> /\ unit = Traces[tid].unit
-    /\ inst = {Traces[tid].op} /\ done = FALSE /\ kmCalls = 0
+    /\ kmul = Traces[tid].kmul /\ kadd = Traces[tid].kadd
+    /\ inst = {Traces[tid].ops[j] : j \in 1..Len(Traces[tid].ops)}
+    /\ done = FALSE /\ kmCalls = 0
     /\ sumAcc = SumSeed /\ meanAcc = MeanSeed /\ minAcc = None /\ maxAcc = None
     /\ wel = WelSeed /\ fAccS = FormalSeed /\ fAccR = FormalSeed
     /\ lastS = [op \in Ops |-> NoVal] /\ lastR = [op \in Ops |-> NoVal]
     /\ cntS = 0 /\ cntR = 0
     /\ st = Stats(EmptyBag, 1)
+    /\ stS = [op \in Ops |-> IF op \in inst THEN FirstStatus(Traces[tid].s[op].ended)
+                             ELSE Accepted]
+    /\ stR = [op \in Ops |-> IF op \in inst THEN FirstStatus(Traces[tid].r[op].ended)
+                             ELSE Accepted]
 
-(* stop at once: the rest of the record cannot be aligned with the model *)
-Reject(step, clause) ==
-    /\ PrintT(<<"VERDICT", tid, "REJECT", step, clause, FALSE>>)
-    /\ ph' = "end"
-    /\ UNCHANGED <<vars, tid, l, badStep, badClause, insync>>
+(* streaming subscription of op: o was emitted during item `step` *)
+ItemS(op, s, o, step, expected, modelled, kmc) ==
+    IF Frozen(s) THEN s
+    ELSE IF Len(o) # 1 THEN Bad(s, step, "count")
+    ELSE LET sync == s[3] /\ o[1] = modelled /\ kmc = 1
+         IN IF s[1] = 0 /\ ~Denotes(o[1], expected) THEN <<step, "value", sync>>
+            ELSE <<s[1], s[2], sync>>
 
-TraceError ==
-    /\ ph = "run" /\ l = 0 /\ T.ended # "completed"
-    /\ Reject(0, "error")
+(* reduce subscription of op during an item: nothing may be emitted *)
+ItemR(op, s, o, step, kmc) ==
+    IF Frozen(s) THEN s
+    ELSE IF Len(o) # 0 THEN Bad(s, step, "count")
+    ELSE <<s[1], s[2], s[3] /\ kmc = 1>>
 
 TraceItem ==
-    /\ ph = "run" /\ l < Len(T.items) /\ T.ended = "completed"
-    /\ LET a == T.items[l + 1]
-           o == T.outs[l + 1]
-       IN IF T.op \notin Ops \/ T.unit < 1 THEN Reject(0, "model-harness-record")
-          ELSE IF T.reduce = 0 /\ Len(o) # 1 THEN Reject(l + 1, "count")
-          ELSE IF T.reduce = 1 /\ Len(o) # 0 THEN Reject(l + 1, "count")
-          ELSE /\ Item(a)
-               /\ IF T.reduce = 0
-                  THEN LET ok == Denotes(o[1], SpecValue(T.op, st', unit))
-                       IN /\ badStep' = IF badStep = 0 /\ ~ok THEN l + 1 ELSE badStep
-                          /\ badClause' = IF badStep = 0 /\ ~ok THEN "value" ELSE badClause
-                          /\ insync' = (insync /\ o[1] = lastS'[T.op] /\ T.km[l + 1] = 1)
-                  ELSE /\ insync' = (insync /\ T.km[l + 1] = 1)
-                       /\ UNCHANGED <<badStep, badClause>>
-               /\ l' = l + 1
-               /\ UNCHANGED <<tid, ph>>
+    /\ ph = "run" /\ l < Len(T.items)
+    /\ inst \subseteq Ops /\ T.unit >= 1
+    /\ Item(T.items[l + 1])
+    /\ stS' = [op \in Ops |->
+                 IF op \notin inst THEN stS[op]
+                 ELSE ItemS(op, stS[op], T.s[op].outs[l + 1], l + 1,
+                            SpecValue(op, st', unit), lastS'[op], T.s[op].km[l + 1])]
+    /\ stR' = [op \in Ops |->
+                 IF op \notin inst THEN stR[op]
+                 ELSE ItemR(op, stR[op], T.r[op].outs[l + 1], l + 1, T.r[op].km[l + 1])]
+    /\ l' = l + 1
+    /\ UNCHANGED <<tid, ph>>
 
-Verdict(step, clause, sync) ==
-    IF step = 0 THEN PrintT(<<"VERDICT", tid, "ACCEPT", l + 1, sync>>)
-    ELSE PrintT(<<"VERDICT", tid, "REJECT", step, clause, sync>>)
+(* streaming subscription at completion: nothing more may be emitted *)
+FinalS(op, s, f, step) ==
+    IF Frozen(s) THEN s
+    ELSE IF Len(f) # 0 THEN Bad(s, step, "count")
+    ELSE s
+
+(* reduce subscription at completion: exactly one value, the statistic of all items,
+   equal to the last streaming value *)
+FinalR(op, s, f, step, expected, modelled, sS, sOuts) ==
+    IF Frozen(s) THEN s
+    ELSE IF Len(f) # 1 THEN Bad(s, step, "count")
+    ELSE LET sync == s[3] /\ f[1] = modelled
+             clause == IF ~Denotes(f[1], expected) THEN (IF N = 0 THEN "empty" ELSE "value")
+                       ELSE IF /\ N >= 1 /\ ~Frozen(sS) /\ Len(sOuts[N]) = 1
+                               /\ f[1] # sOuts[N][1]
+                            THEN "streaming-vs-reduce"
+                       ELSE ""
+         IN IF s[1] = 0 /\ clause # "" THEN <<step, clause, sync>> ELSE <<s[1], s[2], sync>>
 
 TraceComplete ==
-    /\ ph = "run" /\ l = Len(T.items) /\ T.ended = "completed"
-    /\ IF T.op \notin Ops \/ T.unit < 1 THEN Reject(0, "model-harness-record")
-       ELSE IF T.reduce = 0 /\ Len(T.final) # 0 THEN Reject(l + 1, "count")
-       ELSE IF T.reduce = 1 /\ Len(T.final) # 1 THEN Reject(l + 1, "count")
-       ELSE /\ Complete
-            /\ IF T.reduce = 0
-               THEN Verdict(badStep, badClause, insync)
-               ELSE LET v == T.final[1]
-                        ok == Denotes(v, SpecValue(T.op, st, unit))
-                        clause == IF ~ok THEN (IF N = 0 THEN "empty" ELSE "value")
-                                  ELSE IF N >= 1 /\ v # T.sib THEN "streaming-vs-reduce"
-                                  ELSE ""
-                    IN Verdict(IF clause = "" THEN 0 ELSE l + 1, clause,
-                               insync /\ v = lastR'[T.op])
-            /\ ph' = "end"
-            /\ UNCHANGED <<tid, l, badStep, badClause, insync>>
+    /\ ph = "run" /\ l = Len(T.items)
+    /\ inst \subseteq Ops /\ T.unit >= 1
+    /\ Complete
+    /\ stS' = [op \in Ops |-> IF op \notin inst THEN stS[op]
+                              ELSE FinalS(op, stS[op], T.s[op].final, l + 1)]
+    /\ stR' = [op \in Ops |->
+                 IF op \notin inst THEN stR[op]
+                 ELSE FinalR(op, stR[op], T.r[op].final, l + 1, SpecValue(op, st, unit),
+                             lastR'[op], stS[op], T.s[op].outs)]
+    /\ PrintT(<<"VERDICT", tid, "DONE",
+                [j \in 1..Len(T.ops) |-> <<T.ops[j], stS'[T.ops[j]], stR'[T.ops[j]]>>]>>)
+    /\ ph' = "end"
+    /\ UNCHANGED <<tid, l>>
 
-TraceNext == TraceError \/ TraceItem \/ TraceComplete
+(* a record the model cannot be aligned with: harness error, never a verdict *)
+TraceBroken ==
+    /\ ph = "run" /\ ~(inst \subseteq Ops /\ T.unit >= 1)
+    /\ PrintT(<<"VERDICT", tid, "BROKEN", "model-harness-record">>)
+    /\ ph' = "end"
+    /\ UNCHANGED <<vars, tid, l, stS, stR>>
+
+TraceNext == TraceItem \/ TraceComplete \/ TraceBroken
 
 TraceSpec == TraceInit /\ [][TraceNext]_tvars
 
